@@ -33,6 +33,7 @@ THEOREMS = [
     "PV.C19.bytes_eq_fails",
     "PV.C19.format_bytes_panics_iff",
     "PV.C19.float_layout_eq",
+    "PV.C19.float_eq_partial",
     "PV.C19.float_precision_panics",
     "PV.C19.no_panic_partial",
 ]
@@ -56,8 +57,10 @@ PARTIAL = [
     "IntTooBig for widths Python accepts up to 2^63-1: witness width_over_i32_rejected)",
     "bytes_eq_partial: format_bytes panics when the width is smaller than the data (format_bytes_underflow) and "
     "ignores a lone '.' precision (format_bytes_dot_ignored)",
-    "floats: the sign/padding layout is proved (float_layout_eq); the digit text (format_fixed/exponent/general over "
-    "PV.Dec) is tied to CPython by correspondence only; precisions above 65535 panic (float_precision_panics)",
+    "floats: float_eq_partial proves format_float = the C-printf reference over the exact digits of PV.Dec for "
+    "precision <= 65530, with the hypothesis (for %g only) that the digit generator returns the P significant "
+    "digits asked for; that PV.Dec's digits are Rust's {:.N}/{:.Ne} digits and CPython's is sampled by "
+    "correspondence / spec validation, not proved; precisions above 65535 panic (float_precision_panics)",
     "'*' quantities are left to the caller by the library: formatting theorems are stated for resolved specs",
 ]
 READY = True
@@ -466,7 +469,12 @@ def classify(req, impl_out, model_out, failure):
                 # the code behaves as Python does on the same template read as bytes
                 if op == 'csplit':
                     return 'text-percent-b-accepted' if _judge_split('b', lat, impl_out) is None else None
-                return 'text-percent-b-accepted' if impl_out.split()[0] in ('skip', 'ok', 'err') else None
+                head = impl_out.split()[0]
+                if head == 'err':
+                    return 'text-percent-b-accepted' if _judge_split('b', lat, impl_out) is None else None
+                if head in ('skip', 'ok'):      # accepted, as Python accepts the bytes template
+                    return 'text-percent-b-accepted' if py_format(lat, PROBE)[0] != 'err' else None
+                return None
         if op == 'csplit':
             if impl_out.startswith('err toobig') and any(I32_MAX < int(d) <= ISIZE_MAX
                                                         for d in re.findall(rb"\d+", lat)):
@@ -544,13 +552,14 @@ VALUES = [
     U(10 ** 30, 1e-7, 'é', 'é', b'z'),
     U(65, float('inf'), 'q', 'q', b'q'),
     U(200, float('nan'), 'q', 'q', b'q'),
+    U(97, struct.unpack('>d', bytes.fromhex('fff8000000000000'))[0], 'q', 'q', b'q'),
     U(7, -0.0, 'q', 'q', b'q'),
     U(7, 0.0001, 'q', 'q', b'q'),
     U(7, 999999.5, 'q', 'q', b'q'),
     U(7, 2.5, 'q', 'q', b'q'),
 ]
 
-FLOATS = [0.0, -0.0, float('inf'), float('-inf'), float('nan'), 1.0, -1.0, 0.5, 1.5, 2.5, 1e16, 1e-5, 9.999999e-5,
+FLOATS = [0.0, -0.0, float('inf'), float('-inf'), float('nan'), struct.unpack('>d', bytes.fromhex('fff8000000000001'))[0], 1.0, -1.0, 0.5, 1.5, 2.5, 1e16, 1e-5, 9.999999e-5,
           0.0001, 0.00001234, 123456.5, 999999.5, 9999995.0, 9.5, 0.15, 2.675, 1e21, 1e22, 1e23, 5e-324,
           2.2250738585072014e-308, 1.7976931348623157e308, 123456789.0, 1e100, 0.1, 1 / 3, 100.0, 99.5, 0.95,
           0.00095, 1e-4, 9.9995e-5, 12345.678]
@@ -733,6 +742,23 @@ def _boundary_probes():
     ]
 
 
+def _char_tables(op='csplit', rd='crender'):
+    reqs = []
+    u = VALUES[1]
+    cps = list(range(0, 0x250)) + [0x3b1, 0x660, 0x966, 0xff10, 0xff44, 0x2028, 0xd7ff, 0xe000, 0xffff, 0x10000,
+                                   0x1d7ce, 0x1f600, 0x10ffff]
+    for cp in cps:
+        c = chr(cp)
+        for t in ('%' + c, '%' + c + 'd', '%5' + c + 'd', '%.' + c + 'd', '%(' + c + ')s'):
+            reqs.append(_split_req('t', t, op))
+            if cp < 256:
+                reqs.append(_split_req('b', t.encode('latin-1'), op))
+        reqs.append(_render_req('t', '%' + c, u, rd))
+        if cp < 256:
+            reqs.append(_render_req('b', ('%' + c).encode('latin-1'), u, rd))
+    return reqs
+
+
 def _request_sets(ctx, py=False):
     """[(name, kind, exhaustive, note, requests)] — with py=True the same questions for the reference (Spec.lean)"""
     sp = 'pysplit' if py else 'csplit'
@@ -847,6 +873,10 @@ def streams(ctx):
                   note="one deterministic request per listed known finding"),
            Stream("finding-boundaries", _boundary_probes(), kind="directed", nontrivial=nt,
                   note="inputs just inside the domain next to each finding")]
+    out.append(Stream("character-tables", _char_tables(), kind="exhaustive", exhaustive=True, nontrivial=nt,
+                      note="every byte and every scalar value below U+0250 (plus samples above) as conversion type "
+                           "(`%c`) and in modifier position (`%cd`, `%5cd`, `%.cd`): the type, flag, digit, "
+                           "length-modifier and '*'/'.'/'(' tables"))
     for name, kind, exh, note, reqs in _request_sets(ctx):
         out.append(Stream(name, reqs, kind=kind, exhaustive=exh, note=note, nontrivial=nt))
     return out
@@ -862,7 +892,8 @@ def pre_build(ctx):
         return [("spec validation vs CPython", False, "driver does not build: " + out[-300:])]
     res = []
     total = 0
-    for name, kind, exh, note, reqs in _request_sets(ctx, py=True):
+    sets = [("character-tables", "exhaustive", True, "", _char_tables('pysplit', 'pyrender'))]
+    for name, kind, exh, note, reqs in sets + _request_sets(ctx, py=True):
         outs = core.run_lines([core.driver_path(DRIVER)], reqs, jobs=4)
         bad = []
         for r, o in zip(reqs, outs):
